@@ -295,6 +295,39 @@ m("C05-skip-some-hooks", "C05", [(EDITS,
   "\tfor _, h := range e.Hooks {\n\t\tif h == nil {\n\t\t\treturn errors.New(\"invalid (nil) hook\")\n\t\t}\n",
   "\tfor _, h := range e.Hooks {\n\t\tif h == nil {\n\t\t\treturn errors.New(\"invalid (nil) hook\")\n\t\t}\n\t\tif h.HookName == PoststopHook && len(h.Args) == 0 {\n\t\t\tcontinue\n\t\t}\n")], "poststop hooks without args skip validation (two cooperating conditions)")
 
+# ---------------------------------------------------------------- C06
+CONFIG = "specs-go/config.go"
+m("C06-revert-D4-v040", "C06", [(VERSION,
+  "\tfor i := range spec.Devices {\n\t\tedits = append(edits, &spec.Devices[i].ContainerEdits)\n\t}",
+  "\tfor _, d := range spec.Devices {\n\t\tedits = append(edits, &d.ContainerEdits)\n\t}")], "revert of fix D4 in requiresV040")
+m("C06-revert-D4-v050", "C06", [(VERSION,
+  "\tfor i := range spec.Devices {\n\t\td := &spec.Devices[i]\n",
+  "\tfor _, d := range spec.Devices {\n")], "revert of fix D4 in requiresV050")
+m("C06-v060-spec-annotations-only", "C06", [(VERSION,
+  "\tfor _, d := range spec.Devices {\n\t\tfor range d.Annotations {\n\t\t\treturn true\n\t\t}\n\t}\n", "")], "device-level annotations do not require 0.6.0")
+m("C06-v050-first-device-only", "C06", [(VERSION,
+  "\t\tedits = append(edits, &d.ContainerEdits)\n\t}\n\n\tedits = append(edits, &spec.ContainerEdits)\n\tfor _, e := range edits {\n\t\tfor _, dn := range e.DeviceNodes {",
+  "\t\tif len(edits) == 0 {\n\t\t\tedits = append(edits, &d.ContainerEdits)\n\t\t}\n\t}\n\n\tedits = append(edits, &spec.ContainerEdits)\n\tfor _, e := range edits {\n\t\tfor _, dn := range e.DeviceNodes {")], "only the first device's nodes are examined for hostPath")
+m("C06-gate-ge", "C06", [(VERSION,
+  "\tif newVersion(minVersion).isGreaterThan(newVersion(spec.Version)) {",
+  "\tif newVersion(spec.Version).isGreaterThan(newVersion(minVersion)) {")], "gate reversed: newer declared versions rejected, older accepted")
+m("C06-max-first-match", "C06", [(VERSION,
+  "\t\tif isRequired(spec) && v.isGreaterThan(minVersion) {",
+  "\t\tif isRequired(spec) && minVersion == vEarliest {")], "the first matching version in (random) map order wins instead of the maximum")
+m("C06-new-field-no-predicate", "C06", [(CONFIG,
+  "\tOptions       []string `json:\"options,omitempty\" yaml:\"options,omitempty\"`",
+  "\tOptions       []string `json:\"options,omitempty\" yaml:\"options,omitempty\"` // Added in v0.8.0")], "a field documented as added in 0.8.0 has no predicate reading it")
+m("C06-v070-gids-spec-only", "C06", [(VERSION,
+  "\t\t// The v0.7.0 spec allows additional GIDs to be specified at a device level.\n\t\tif len(d.ContainerEdits.AdditionalGIDs) > 0 {\n\t\t\treturn true\n\t\t}\n", "")], "device-level additional GIDs do not require 0.7.0")
+m("C06-unknown-version-ok", "C06", [(VERSION,
+  "\tif !validSpecVersions.isValidVersion(spec.Version) {\n\t\treturn fmt.Errorf(\"invalid version %q\", spec.Version)\n\t}\n", "")], "unreleased version strings accepted")
+m("C06-v100-always", "C06", [(VERSION,
+  "func requiresV100(_ *Spec) bool {\n\treturn false\n}",
+  "func requiresV100(s *Spec) bool {\n\treturn len(s.Devices) > 64\n}")], "large Specs are said to need 1.0.0")
+b("benign-C06-range-by-index", ["C06", "C08"], [(VERSION,
+  "\tfor _, d := range spec.Devices {\n\t\tif d.ContainerEdits.IntelRdt != nil {",
+  "\tfor i := range spec.Devices {\n\t\td := &spec.Devices[i]\n\t\tif d.ContainerEdits.IntelRdt != nil {")], "index loop with element pointer")
+
 
 def emit():
     os.makedirs(os.path.join(VERIF, "mutants"), exist_ok=True)
